@@ -69,7 +69,7 @@ def case(draw, tier):
         t, p = draw(tdm_pair())
         scripts.extend([{"text": t}, {"text": p}])
     scripts.append(draw(S.script(S.Cfg(max_items=6, depth=1, params=True, sym_vars=draw(st.booleans()), regs=draw(st.booleans()),
-                                       array_weight=2))))
+                                       array_weight=2, whole_array_odds=1))))
     for _ in range(draw(st.integers(0, 2))):
         scripts.append(draw(S.script(S.Cfg(max_items=6, depth=1, regs=draw(st.booleans()), params=draw(st.booleans())))))
     steps = draw(st.lists(step(), min_size=4, max_size=40 if big else 15))
@@ -77,8 +77,15 @@ def case(draw, tier):
     if draw(st.integers(0, 3)) > 0:
         first = draw(step())
         first["k"] = "call"
-        first["i"] = 0 if not (isinstance(scripts[0], dict)) else len([x for x in scripts if isinstance(x, dict)])
+        tpl = 0 if not (isinstance(scripts[0], dict)) else len([x for x in scripts if isinstance(x, dict)])
+        first["i"] = tpl
         steps.insert(0, first)
+        if draw(st.integers(0, 2)) == 0:
+            # two instances from the same caller values, then in-place edits of the variables of one of them
+            second = dict(first)
+            first["how"], second["how"] = 0, 2
+            edit = {"k": "mutate", "i": 0, "j": draw(st.integers(0, 1)), "how": 3, "vals": [0.5]}
+            steps[1:1] = [second, edit]
     return {"scripts": scripts, "steps": steps}
 
 
@@ -124,10 +131,13 @@ def _mutate(p, how, vals):
             ops[-1].setdefault("kwargs", {})["machine_kw"] = [vals[0]]
             return "add-kwarg"
     if how == 3:
+        hit = False
         for k, v in p.variables.items():
-            if isinstance(v, np.ndarray) and v.size and v.dtype != object:
-                v.flat[0] = 3
-                return "write-variable-array"
+            if isinstance(v, np.ndarray) and v.size and not canon.contains_sympy(v):
+                v.flat[0] = 3          # every numeric array variable of this instance is written
+                hit = True
+        if hit:
+            return "write-variable-arrays"
         p.variables["machine_added2"] = 1
         return "add-variable"
     if how == 4:
@@ -182,6 +192,7 @@ def check(c):
     argless = any("args" not in o for p, _, _ in pool for o in p.operations)
     did = set()
     trace = []
+    shared_arrays = {}
     for n, s in enumerate(c["steps"]):
         i = s["i"] % len(pool)
         j = s["j"] % len(pool)
@@ -195,6 +206,24 @@ def check(c):
                 if p.is_template():
                     names = sorted(p.parameters)
                     vals = {nm: s["vals"][x % len(s["vals"])] for x, nm in enumerate(names)}
+                    # array-valued parameters (names base_i_j covering a full r x c block) get ONE ndarray per template
+                    # and base name for the whole history: every instance is made from the very same caller array
+                    import re as _re
+                    groups = {}
+                    for nm in names:
+                        m_ = _re.match(r"^(.*)_(\d+)_(\d+)$", nm)
+                        if m_:
+                            groups.setdefault(m_.group(1), set()).add((int(m_.group(2)), int(m_.group(3))))
+                    for base, idx in groups.items():
+                        r_, c_ = max(i_ for i_, _ in idx) + 1, max(j_ for _, j_ in idx) + 1
+                        if idx == {(a_, b_) for a_ in range(r_) for b_ in range(c_)} and base not in names and s["how"] % 2 == 0:
+                            key_ = (i, base)
+                            if key_ not in shared_arrays:
+                                shared_arrays[key_] = np.arange(1, r_ * c_ + 1, dtype=float).reshape(r_, c_) / 4
+                            for a_ in range(r_):
+                                for b_ in range(c_):
+                                    vals.pop("%s_%d_%d" % (base, a_, b_))
+                            vals[base] = shared_arrays[key_]
                     inst = p(**vals)
                     if len(pool) < 8:
                         pool.append([inst, _state(inst), "instance-of-%d" % i])
